@@ -541,3 +541,126 @@ class C06(PropOracle):
 
 
 ORACLES = {c.__name__: c for c in (Obs, C01, C02, C03, C04, C05, C06)}
+
+
+def _td_minutes(walltime):
+    h, m, s = (int(x) for x in walltime.split(":"))
+    return h * 60 + m + s / 60.0
+
+
+class C07(PropOracle):
+    """Every batch respects its group's size/time limit, one group per batch, group's HPC parameters
+    and run options; blocked jobs only with all unfinished blockers in the batch."""
+
+    prop = "C07"
+
+    def on_sbatch(self, w, vp, d):
+        self.check_batch(w, d, d.get("name"))
+
+    def check_batch(self, w, d, label):
+        from .echecks import ref_script
+
+        if d.get("error"):
+            self.v(w, f"unusable submission {label}: {d['error']}", "unusable")
+            return
+        jobs = d["jobs"]
+        by = {j["name"]: j for j in w.scen["jobs"]}
+        groups = {g["name"]: g for g in w.scen["groups"]}
+        if not jobs:
+            self.v(w, f"batch {label} is empty", "empty-batch")
+            return
+        gs = {by[j]["group"] for j in jobs if j in by}
+        if len(gs) != 1 or any(j not in by for j in jobs):
+            self.v(w, f"batch {label} mixes submission groups {sorted(gs)}: {jobs}", "mixed-groups")
+            return
+        g = groups[gs.pop()]
+        if g["time_based"]:
+            tot = sum(by[j]["est"] or 0 for j in jobs)
+            cap = _td_minutes(g["walltime"]) * (g["nproc"] or 1)
+            if tot > cap + 1e-9:
+                self.v(w, f"batch {label} {jobs}: estimated minutes {tot} > walltime x processes = {cap}", "time-limit")
+        else:
+            if len(jobs) > g["size"]:
+                self.v(w, f"batch {label} has {len(jobs)} jobs > per-node batch size {g['size']}", "size-limit")
+        # submission script == reference rendering of that group's SLURM fields
+        m = RE_BATCH.search(d["config"])
+        N = m.group(1) if m else "?"
+        want_name = f"{g.get('job_prefix', 'job')}_batch_{N}"
+        hp = dict(g.get("slurm") or {})
+        exp = ref_script(want_name, d["run_script"], w.root, "acct", g["walltime"], hp)
+        if d["script_text"] != exp:
+            self.v(w, f"submission script of batch {label} (group {g['name']}):\n{d['script_text']}\n!= reference\n{exp}", "script-mismatch")
+        if os.path.basename(d["script"]) != want_name + ".sh":
+            self.v(w, f"submission script file {d['script']} for batch named {want_name}", "script-name")
+        # run line parsed by JADE's own run-jobs command
+        from jade.cli.run_jobs import run_jobs as run_jobs_cmd
+
+        argv = d["run_argv"]
+        try:
+            ctx = run_jobs_cmd.make_context("run-jobs", list(argv[2:]))
+            p = ctx.params
+        except Exception as e:  # noqa
+            self.v(w, f"run line of batch {label} not parsable by run-jobs: {argv}: {e}", "run-line-unparsable")
+            return
+        want = dict(distributed_submitter=bool(g["distributed"]), output=w.root,
+                    num_parallel_processes_per_node=g["nproc"], verbose=bool(g.get("verbose", False)))
+        got = {k: p.get(k) for k in want}
+        if got != want:
+            self.v(w, f"run options of batch {label} (group {g['name']}): {got} != {want}", "run-options")
+        if RE_BATCH.search(p.get("config_file") or "") is None:
+            self.v(w, f"run line of batch {label} names config {p.get('config_file')}", "run-config")
+        # blocked_by handed to the node
+        rows = disk_rows(w)
+        jb = d.get("job_blocked_by", {})
+        for j in jobs:
+            listed = set(jb.get(j, []))
+            if listed and not g["try_add"]:
+                self.v(w, f"batch {label}: job {j} carries blockers {sorted(listed)} although try-add-blocked is off", "blocked-without-try-add")
+            if not listed.issubset(jobs):
+                self.v(w, f"batch {label} {jobs}: job {j} waits for {sorted(listed - set(jobs))} which are not in the batch", "blocker-outside-batch")
+            unlisted = set(by[j]["blocked_by"]) - listed
+            rerun = w.data.get("rerun")
+            for b in sorted(unlisted):
+                if rerun is not None and b not in rerun:
+                    continue
+                if b not in rows:
+                    self.v(w, f"batch {label}: job {j} included although blocker {b} has no outcome and is not handed to the node", "unfinished-blocker-dropped")
+
+
+class C07Dry(C07):
+    """Dry run: same first-round batches on disk, nothing handed to the HPC, nothing started."""
+
+    def on_sbatch(self, w, vp, d):
+        self.v(w, f"sbatch {d.get('name')} issued in dry-run mode", "dry-run-sbatch")
+
+    def on_launch(self, w, vp, d):
+        self.v(w, f"job {d['job']} started in dry-run mode", "dry-run-launch")
+
+    def on_end(self, w, vp, d):
+        # read the batches that were written and apply the same checks
+        from .sim import SimSlurm
+
+        found = {}
+        for n in sorted(os.listdir(w.root)):
+            if re.match(r".*_batch_\d+\.sh$", n) and not n.startswith("run_batch_"):
+                info = w.sim._parse_submission(os.path.join(w.root, n))
+                self.check_batch(w, info, n)
+                m = RE_BATCH.search(info.get("config") or "")
+                found[int(m.group(1)) if m else -1] = tuple(info["jobs"])
+        w.data["dry_batches"] = found
+        want = w.scen.get("expect_batches")
+        if want is not None and {int(k): tuple(v) for k, v in want.items()} != found:
+            self.v(w, f"dry run wrote batches {found}, the real first round submits {want}", "dry-run-batches-differ")
+
+
+class FirstRound(PropOracle):
+    """Helper: records the login round's batches (used to compute the dry-run expectation)."""
+
+    prop = "C07"
+
+    def on_end(self, w, vp, d):
+        w.data["final"] = dict(w.data.get("final") or {})
+        w.data["final"]["first_round"] = {r["N"]: tuple(r["jobs"]) for r in w.obs.sbatch_log if r["vp"] == "login"}
+
+
+ORACLES.update({c.__name__: c for c in (C07, C07Dry, FirstRound)})
